@@ -129,7 +129,7 @@ static void load_signals(int Fs,int ch){
       int fam=k,used=(fam==SIG_NOISE||fam==SIG_SQUARE||fam==SIG_SPEECH),q; sigbuf *b=&SB[fam];   /* the sweeps always use noise/square/speech */
       for(q=0;q<NFAMS;q++) if(FAMS[q]==fam) used=1;
       if (g_tight) used = (fam==F_VN||fam==SIG_NOISE||fam==SIG_SPEECH||fam==SIG_MULTITONE);
-      if (g_fecmode) used = (fam==F_TOGGLE||fam==SIG_SPEECH||fam==SIG_STEREOPAN);
+      if (g_fecmode) used = (fam==F_TOGGLE||fam==SIG_SPEECH);
       if (!used) continue;
       b->f=malloc(n*sizeof(float));
       if (fam<SIG_NFAM || fam==F_VN || fam==F_TOGGLE){
@@ -581,21 +581,21 @@ static void tight_item(long it,void *ctx){
 /* ------------------------------------------------------------------ in-band FEC (LBRR) family
  * LBRR data is only written when FEC is on, loss% > 0, the rate is high enough and the frame is active, and its per-channel / per-20-ms flags only
  * differ inside a packet when the packet holds >= 2 SILK frames and channel activity changes on the 20 ms grid.  That is 4-5 simultaneous settings
- * plus a particular signal, outside the <=k grid.  So: every (FEC 1/2) x loss x duration (>= 40 ms; thorough also 80/120) x bitrate x (automatic /
+ * plus a particular signal, outside the <=k grid.  So: every (FEC 1/2) x loss x duration (40/60 ms; thorough also 80) x bitrate x (automatic /
  * forced SILK) x (channels automatic / forced 2) on every stereo (Fs, application in VOIP/AUDIO) base (thorough: + mono VOIP bases), g_fframes
- * frames of the channel-toggle family (thorough: + speech-like, stereo-pan).   item = (base index, configuration) */
+ * frames of the channel-toggle family (thorough: + speech-like).   item = (base index, configuration) */
 static int g_fframes;
 static void fec_item(long it,void *ctx){
-   static const int LOSSQ[2]={10,25}, LOSST[3]={10,25,50}, DURQ[2]={4,5}, DURT[4]={4,5,6,8}, BR[3]={OPUS_AUTO,32000,48000};
-   int nl=MC.tier?3:2, ndur=MC.tier?4:2, ncfg=2*nl*ndur*3*2*2, c=(int)(it%ncfg), bi=(int)(it/ncfg), base, v[NDIM], dflt[NDIM], k; (void)ctx;
+   static const int LOSSQ[2]={10,25}, LOSST[3]={10,25,50}, DURQ[2]={4,5}, DURT[3]={4,5,6}, BR[3]={OPUS_AUTO,32000,48000};
+   int nl=MC.tier?3:2, ndur=MC.tier?3:2, ncfg=2*nl*ndur*3*2*2, c=(int)(it%ncfg), bi=(int)(it/ncfg), base, v[NDIM], dflt[NDIM], k; (void)ctx;
    int fec=1+c%2, loss, d, br, silk, fch; c/=2;
    loss=(MC.tier?LOSST:LOSSQ)[c%nl]; c/=nl; d=(MC.tier?DURT:DURQ)[c%ndur]; c/=ndur; br=BR[c%3]; c/=3; silk=c%2; c/=2; fch=c%2;
    if (bi<10) base=(bi/2)*6+3+(bi%2);            /* stereo, VOIP / AUDIO */
    else { base=(bi-10)*6; if (fch) return; }      /* mono VOIP (thorough): forcing 2 channels is rejected there */
    load_signals(FS[base/6],1+(base/3)%2); vec_default(dflt); vec_default(v);
    v[D_FEC]=fec; v[D_LOSS]=loss; v[D_DUR]=d; v[D_BITRATE]=br; if(silk) v[D_MODE]=REF_MODE_SILK_ONLY; if(fch) v[D_FCH]=2;
-   for(k=0;k<(MC.tier?3:1);k++){
-      static const int ff[3]={F_TOGGLE,SIG_SPEECH,SIG_STEREOPAN};
+   for(k=0;k<(MC.tier?2:1);k++){
+      static const int ff[2]={F_TOGGLE,SIG_SPEECH};
       encobj e; decobj D[14]; int nd,f,fam=ff[k],entry=(int)((it+k)%3); long pos=0;
       mc_case("encode_or_decode","fec base=%d Fs=%d ch=%d app=%s cfg=[%s] signal=%s entry=%s frames=%d",base,FS[base/6],1+(base/3)%2,APPN[base%3],vec_str(v),famname(fam),ENTN[entry],g_fframes);
       enc_fresh(&e,base);
@@ -649,7 +649,7 @@ int main(int argc,char **argv){
    else if (!strcmp(mode,"hist")){ mc_par(30L*(NS+1),hist_item,NULL); }
    else if (!strcmp(mode,"ms")){ mc_par(ms_nitems()+(g_sweep>0?(long)g_nlay*15*NSWEEPCFG:0),ms_item,NULL); }
    else if (!strcmp(mode,"sweep")){ mc_par(30L*36,sweep_item,NULL); }
-   else if (!strcmp(mode,"fec")){ int nl=MC.tier?3:2, ndur=MC.tier?4:2; mc_par((long)2*nl*ndur*3*2*2*(MC.tier?15:10),fec_item,NULL); }
+   else if (!strcmp(mode,"fec")){ int nl=MC.tier?3:2, ndur=MC.tier?3:2; mc_par((long)2*nl*ndur*3*2*2*(MC.tier?15:10),fec_item,NULL); }
    else if (!strcmp(mode,"tight")){ mc_par((long)(g_thi-g_tlo+1)*g_tcombos*2*g_tnfs,tight_item,NULL); }
    else { fprintf(stderr,"unknown mode\n"); return 2; }
    {
